@@ -86,8 +86,12 @@ impl<T, E> Observer<T, E> for ObservableFutureObserver<T, E> {
     send_observable_value(self, Ok(value));
   }
 
-  fn error(mut self, err: E) {
-    send_observable_value(&mut self, Err(err));
+  fn error(self, err: E) {
+    // The source failed: resolve the future with its error and close the
+    // channel, otherwise the receiver only sees a closed empty channel and
+    // stays pending forever.
+    let _ = self.sender.unbounded_send(Ok(Err(err)));
+    self.sender.close_channel();
   }
 
   fn complete(mut self) {
